@@ -17,6 +17,7 @@ RULE = ('envelope: every payload length 1..4100 (all residues mod 3 and mod 48) 
         'a corruption case, or an object with headers; distinct by (length, fill, input form) / (kind, header count) / (block, position, char).')
 RULE += ' The checksum field is also replaced wholesale by 000000, FFFFFF, the CRC-24 initial value and neighbours, and payloads whose true CRC is 000000 are corrupted like the others. Header values are any printable text (with \': \' inside, empty, UTF-8), surroundings may be non-ASCII; the caller\'s bytearray is untouched and loads twice; the \'=\' of the checksum line and single characters replaced by non-ASCII / control characters count as corruptions.'
 RULE += ' Several damaged inputs are loaded in one process under the default warning filter: each must be reported.'
+RULE += ' Binary literal messages whose text holds an armored block must load as themselves; white space may trail every armor line.'
 ASSUMPTIONS = ['refpgp.armor is an independent section 6 reader/writer; its CRC-24 is checked against the published check value 0x21CF02',
                'the CRC warning is PGPy\'s reporting channel for a payload that does not match its CRC', 'a block without checksum line is well formed (RFC 4880 6.1: the checksum MAY appear)']
 
@@ -94,7 +95,7 @@ def w_lengths(arg):
     lo, hi = arg
     Blob = blob_class()
     rec = harness.Rec()
-    forms = ['str', 'bytes', 'bytearray', 'crlf', 'surround', 'crlf-bytes', 'nocrc', 'trailing-ws', 'nocrc-crlf']
+    forms = ['str', 'bytes', 'bytearray', 'crlf', 'surround', 'crlf-bytes', 'nocrc', 'trailing-ws', 'nocrc-crlf', 'trailing-ws-all']
     for n in range(lo, hi):
         for kind in ('zero', 'ff', 'rnd'):
             data = fill(n, kind)
@@ -124,6 +125,9 @@ def w_lengths(arg):
             if form == 'trailing-ws':
                 # only white space may follow the armor header and tail lines (RFC 4880 6.2): mail transport adds it
                 inp = '\n'.join(l + (' \t' if l.startswith('-----') else '') for l in text.split('\n'))
+            if form == 'trailing-ws-all':
+                # ... and white space at the end of the radix-64 and checksum lines is not part of the data (RFC 2045 6.8; gpg --dearmor reads it)
+                inp = '\n'.join(l + (' ' if i % 2 else '\t ') if l and ':' not in l else l for i, l in enumerate(text.split('\n')))
             if form in ('bytes', 'crlf-bytes'):
                 inp = inp.encode('ascii')
             elif form == 'bytearray':
@@ -419,6 +423,33 @@ def w_corrupt(arg):
     return rec
 
 
+def w_embedded(arg):
+    """a binary message whose literal text holds an armored block (a forwarded message, a key pasted into a mail): loading the binary gives
+    that message -- not the block inside it -- whatever octets the packet header in front of the text happens to consist of"""
+    import pgpy
+    seed = arg
+    rec = harness.Rec()
+    inner = armor.write_block('MESSAGE', wire.build_packet(11, b'b\x00' + wire.u32(0) + b'the inner message'))
+    for j, (name, t) in enumerate([(b'forwarded.txt', 0x61626364), (b'notes.txt', 0x5f5e1000), (b'x' * 40, 0x62000000 + seed), (b'a.txt', 0x61626364), (b'forwarded.txt', 5)]):
+        for fmt in (b'u', b't', b'b'):
+            body = b'see below\n' + inner.encode() + b'\nend\n'
+            blob = wire.build_packet(11, fmt + bytes([len(name)]) + name + wire.u32(t) + body)
+            case = {'kind': 'embedded', 'seed': seed}
+            printable = all(c >= 0x20 or c in (9, 10, 13) for c in blob[:blob.find(b'-----BEGIN')])
+            rec.case(('embedded', j, fmt), True, ('binary-with-armor-inside', 'header-octets/' + ('all-printable' if printable else 'with-control-octets')),
+                     {'form': 'binary literal message whose text holds an armored block', 'file_name_octets': len(name), 'format': fmt.decode(), 'header_printable': printable})
+            for inp in (blob, bytearray(blob)):
+                try:
+                    m = pgpy.PGPMessage.from_blob(inp)
+                    got = bytes(m)
+                except Exception as e:   # noqa
+                    rec.finding('object', 'binary-with-armor-inside/load-exception', case, repr(e))
+                    continue
+                if got != blob:
+                    rec.finding('object', 'binary-with-armor-inside/read-as-the-inner-block', case, 'loaded %d octets, the binary has %d' % (len(got), len(blob)))
+    return rec
+
+
 def w_repeated(arg):
     """several damaged inputs in one process, under Python's default warning filter (which shows a warning once per code location): every
     one of them must be reported, not only the first -- the warning is the only channel the caller has"""
@@ -452,7 +483,7 @@ def w_repeated(arg):
 
 
 def run(tier, seed):
-    tasks = [('w_repeated', seed)]
+    tasks = [('w_repeated', seed), ('w_embedded', seed)]
     step = 260
     for lo in range(1, 4101, step):
         tasks.append(('w_lengths', (lo, min(4101, lo + step))))
@@ -472,6 +503,8 @@ def dispatch(task):
 
 def replay(case):
     k = case['kind']
+    if k == 'embedded':
+        return [(f['clause'], f['cause'], f['detail']) for f in w_embedded(case['seed']).findings]
     if k == 'repeated':
         return [(f['clause'], f['cause'], f['detail']) for f in w_repeated(case['seed']).findings]
     if k == 'length':
